@@ -62,6 +62,16 @@ Theorem C06_source_to_text : forall T O enc u full,
 Proof. exact src_to_text_eq. Qed.
 Print Assumptions C06_source_to_text.
 
+(* _make_quote_map and the four module-level tables built by it: its regenerated body applied to the
+   regenerated _USERINFO_SAFE/_PATH_SAFE/_QUERY_SAFE/_FRAGMENT_SAFE sets gives exactly the tables read
+   back from the imported module, so a change of a *_SAFE set, of the escaping rule or of the table
+   construction shows up here or as "source changed shape" *)
+Theorem C06_source_make_quote_map :
+  gen_user_map = src_make_quote_map gen_user_safe /\ gen_path_map = src_make_quote_map gen_path_safe /\
+  gen_query_map = src_make_quote_map gen_query_safe /\ gen_frag_map = src_make_quote_map gen_frag_safe.
+Proof. exact src_make_quote_map_eq. Qed.
+Print Assumptions C06_source_make_quote_map.
+
 (* (T) the regenerated tables: every map entry is the byte itself or %XX, a byte is left
    unescaped only where RFC 3986 allows it at that position (so never a character the
    parser splits on there: userinfo :@/?#  segment /?#  query part &;=+#  fragment #),
